@@ -222,7 +222,37 @@ class PathConditions:
                     e = f.expr
             if pred(e, f.pol):
                 return f
+            if expanded and any(pred(e2, p2) for e2, p2 in _implied(e, f.pol)):
+                return f
         return None
+
+
+def _implied(e: ast.AST, pol: bool, depth: int = 0):
+    """Facts that follow from `e` having truth value `pol`: the operands of a false `or` / true `and`, the operand of
+    `not`, and for a flag merged from two branches (`True if c else X` known false: c false and X false)."""
+    if depth > 6:
+        return
+    def const(x, v):
+        return isinstance(x, ast.Constant) and x.value is v
+    subs = []
+    if isinstance(e, ast.UnaryOp) and isinstance(e.op, ast.Not):
+        subs.append((e.operand, not pol))
+    elif isinstance(e, ast.BoolOp) and isinstance(e.op, ast.Or) and not pol:
+        subs += [(v, False) for v in e.values]
+    elif isinstance(e, ast.BoolOp) and isinstance(e.op, ast.And) and pol:
+        subs += [(v, True) for v in e.values]
+    elif isinstance(e, ast.IfExp):
+        if const(e.body, True) and not pol:        # (True if c else X) is false: c is false and X is false
+            subs += [(e.test, False), (e.orelse, False)]
+        elif const(e.orelse, True) and not pol:    # (X if c else True) is false: c is true and X is false
+            subs += [(e.test, True), (e.body, False)]
+        elif const(e.body, False) and pol:         # (False if c else X) is true: c is false and X is true
+            subs += [(e.test, False), (e.orelse, True)]
+        elif const(e.orelse, False) and pol:       # (X if c else False) is true: c is true and X is true
+            subs += [(e.test, True), (e.body, True)]
+    for s_, p_ in subs:
+        yield s_, p_
+        yield from _implied(s_, p_, depth + 1)
 
 
 _cache: dict[int, PathConditions] = {}
